@@ -216,3 +216,339 @@ Section Values.
     - destruct l as [c|]; [|reflexivity]. destruct (Hl c eq_refl) as [H1 H2]. unfold bind. rewrite (leaf_value_stored c H1 H2). reflexivity.
   Qed.
 End Values.
+
+(* ---------- the entries of the root subset ---------- *)
+Definition root_ent (o : opts) (keys : list key) (vals : option (list (list byte))) (i : nat) (k : key) : ent :=
+  {| e_key := k; e_nibs := nibs k; e_keep := retained o keys vals i; e_idx := i |}.
+
+Lemma root_ent_nth o keys vals i k :
+  nth_error keys i = Some k ->
+  nth_error (s_ents (root_subset o keys vals)) i = Some (root_ent o keys vals i k).
+Proof. intros H. cbn [root_subset s_ents]. rewrite (mk_ents_nth keys 0 _ i k H). reflexivity. Qed.
+
+Lemma root_ent_in o keys vals e :
+  In e (s_ents (root_subset o keys vals)) ->
+  exists i k, nth_error keys i = Some k /\ e = root_ent o keys vals i k.
+Proof.
+  intros H. apply In_nth_error in H. destruct H as (n & Hn).
+  assert (n < length keys) as Hlt.
+  { assert (n < length (s_ents (root_subset o keys vals))) as H by (apply nth_error_Some; rewrite Hn; discriminate).
+    cbn [root_subset s_ents] in H. clear - H. revert H. generalize 0 at 1. generalize (to_keep o (length keys) vals). revert n.
+    induction keys as [|k r IH]; intros n kp b H; cbn in *; [lia|]. destruct n; [lia|].
+    apply (proj1 (Nat.succ_lt_mono _ _)). eapply IH. apply (proj2 (Nat.succ_lt_mono _ _)). exact H. }
+  destruct (nth_error keys n) as [k|] eqn:Ek; [|apply nth_error_None in Ek; lia].
+  rewrite (root_ent_nth o keys vals n k Ek) in Hn. inversion Hn; subst e. exists n, k. auto.
+Qed.
+
+Lemma root_idx_inj o keys vals a b :
+  In a (s_ents (root_subset o keys vals)) -> In b (s_ents (root_subset o keys vals)) -> e_idx a = e_idx b -> a = b.
+Proof.
+  intros Ha Hb E. destruct (root_ent_in _ _ _ _ Ha) as (i & ka & Hka & ->). destruct (root_ent_in _ _ _ _ Hb) as (j & kb & Hkb & ->).
+  cbn [e_idx root_ent] in E. subst j. rewrite Hka in Hkb. inversion Hkb. reflexivity.
+Qed.
+
+(* order of entries = order of their indexes *)
+Lemma mk_ents_idx_sorted : forall keys b keep, StronglySorted (fun x y => e_idx x < e_idx y) (mk_ents b keys keep).
+Proof.
+  induction keys as [|k r IH]; intros b keep; cbn [mk_ents]; constructor; [apply IH|].
+  assert (forall l b0 kp x, In x (mk_ents b0 l kp) -> b0 <= e_idx x) as Hge.
+  { induction l as [|k0 l IHl]; intros b0 kp x Hx; cbn [mk_ents] in Hx; [destruct Hx|].
+    destruct Hx as [<-|Hx]; [cbn; lia|]. specialize (IHl _ _ _ Hx). lia. }
+  rewrite Forall_forall. intros x Hx. specialize (Hge _ _ _ _ Hx). cbn. lia.
+Qed.
+
+Lemma SS_both {A} (R S : A -> A -> Prop) l :
+  StronglySorted R l -> StronglySorted S l -> (forall x y, S x y -> S y x -> False) -> (forall x, ~ S x x) ->
+  forall a b, In a l -> In b l -> S a b -> R a b.
+Proof.
+  intros HR HS Hasym Hirr. induction l as [|x l IH]; intros a b Ha Hb Hab; [destruct Ha|].
+  inversion HR as [|? ? HR' HRf]; inversion HS as [|? ? HS' HSf]; subst. rewrite Forall_forall in HRf, HSf.
+  destruct Ha as [<-|Ha], Hb as [<-|Hb].
+  - exfalso. eapply Hirr; exact Hab.
+  - apply HRf. exact Hb.
+  - exfalso. eapply Hasym; [exact Hab|apply HSf; exact Ha].
+  - apply IH; assumption.
+Qed.
+
+Lemma ent_lt_irrefl a : ~ ent_lt a a.
+Proof. unfold ent_lt. rewrite lex_cmp_refl. discriminate. Qed.
+
+Lemma ent_lt_trans a b c : ent_lt a b -> ent_lt b c -> ent_lt a c.
+Proof. unfold ent_lt. apply lex_lt_trans. Qed.
+
+Lemma SS_ent_NoDup l : StronglySorted ent_lt l -> NoDup l.
+Proof.
+  induction 1 as [|x l Hs IH Hf]; constructor; [|exact IH].
+  intros Hin. rewrite Forall_forall in Hf. eapply ent_lt_irrefl. apply Hf. exact Hin.
+Qed.
+
+Section RootOrder.
+  Variables (o : opts) (keys : list key) (vals : option (list (list byte))).
+  Hypothesis Hs : AdjSorted keys.
+  Hypothesis Hne : keys <> [].
+  Let root := root_subset o keys vals.
+
+  Lemma root_idx_lt a b : In a (s_ents root) -> In b (s_ents root) -> (ent_lt a b <-> e_idx a < e_idx b).
+  Proof.
+    intros Ha Hb.
+    pose proof (si_sorted _ (root_inv o keys vals Hs Hne)) as S1.
+    pose proof (mk_ents_idx_sorted keys 0 (to_keep o (length keys) vals)) as S2.
+    assert (forall x y, In x (s_ents root) -> In y (s_ents root) -> e_idx x < e_idx y -> ent_lt x y) as Hfwd.
+    { intros x y Hx Hy Hlt. apply (SS_both ent_lt (fun u v => e_idx u < e_idx v) (s_ents root) S1 S2); try assumption; intros; lia. }
+    split; [|apply Hfwd; assumption].
+    intros Hlt. destruct (Nat.lt_trichotomy (e_idx a) (e_idx b)) as [H|[H|H]]; [exact H| |].
+    - exfalso. rewrite (root_idx_inj o keys vals a b Ha Hb H) in Hlt. eapply ent_lt_irrefl; exact Hlt.
+    - exfalso. eapply ent_lt_irrefl. eapply ent_lt_trans; [exact Hlt|apply Hfwd; assumption].
+  Qed.
+
+  Lemma kept_NoDup : NoDup (kept root).
+  Proof.
+    pose proof (si_sorted _ (root_inv o keys vals Hs Hne)) as S1.
+    apply (SS_filter _ e_keep) in S1. apply SS_ent_NoDup. exact S1.
+  Qed.
+End RootOrder.
+
+Lemma NoDup_split_unique {A} (x : A) l1 r1 l2 r2 :
+  NoDup (l1 ++ x :: r1) -> l1 ++ x :: r1 = l2 ++ x :: r2 -> l1 = l2 /\ r1 = r2.
+Proof.
+  revert l2; induction l1 as [|a l1 IH]; intros l2 Hnd Heq.
+  - destruct l2 as [|b l2]; cbn in *.
+    + inversion Heq; auto.
+    + inversion Heq; subst. inversion Hnd as [|? ? Hnot _]; subst. exfalso. apply Hnot. apply in_or_app. right; left; reflexivity.
+  - destruct l2 as [|b l2]; cbn in *.
+    + inversion Heq; subst. inversion Hnd as [|? ? Hnot _]; subst. exfalso. apply Hnot. apply in_or_app. right; left; reflexivity.
+    + inversion Heq; subst. inversion Hnd as [|? ? _ Hnd']; subst.
+      destruct (IH l2 Hnd' H1) as [-> ->]. auto.
+Qed.
+
+Lemma last_opt_map {A B} (f : A -> B) l : last_opt (map f l) = option_map f (last_opt l).
+Proof.
+  induction l as [|a l IH]; [reflexivity|]. destruct l as [|b l']; [reflexivity|]. exact IH.
+Qed.
+
+Lemma hd_opt_map {A B} (f : A -> B) l : hd_opt (map f l) = option_map f (hd_opt l).
+Proof. destruct l; reflexivity. Qed.
+
+Lemma node_val_oidx T vals x :
+  (forall n, x = Some n -> is_leaf n = true) ->
+  option_map (node_val T vals) x = option_map (stored T vals) (oidx x).
+Proof.
+  intros H. destruct x as [n|]; [|reflexivity]. specialize (H n eq_refl).
+  destruct n; [reflexivity|discriminate].
+Qed.
+
+Lemma option_map_comp_stored T vals (x : option ent) :
+  option_map (stored T vals) (option_map e_idx x) = option_map (fun e => stored T vals (e_idx e)) x.
+Proof. destruct x; reflexivity. Qed.
+
+(* ---------- C09: Search on a retained key, every mode ---------- *)
+Theorem search_retained o keys vals T i k P S :
+  build o keys vals = Ok T ->
+  nth_error keys i = Some k ->
+  map e_idx (kept (root_subset o keys vals)) = P ++ i :: S ->
+  search T k = Ok (option_map (stored T vals) (last_opt P), Some (stored T vals i), option_map (stored T vals) (hd_opt S)).
+Proof.
+  intros Hb Hk HPS. destruct (build_ok _ _ _ _ Hb) as [[-> _]|(r & lidx & B)]; [destruct i; discriminate|].
+  set (root := root_subset o keys vals) in *.
+  pose proof (bt_sorted _ _ _ _ _ _ B) as Hs. pose proof (bt_nonempty _ _ _ _ _ _ B) as Hne.
+  set (e := root_ent o keys vals i k).
+  assert (In e (s_ents root)) as He by (eapply nth_error_In; apply root_ent_nth; exact Hk).
+  (* decompose the kept list at e *)
+  apply map_eq_app in HPS. destruct HPS as (P' & R' & HK & HP & HR).
+  apply map_eq_cons in HR. destruct HR as (e' & S' & -> & Hi & HS).
+  assert (In e' (kept root)) as He' by (rewrite HK; apply in_or_app; right; left; reflexivity).
+  assert (e' = e) as ->.
+  { apply filter_In in He'. apply (root_idx_inj o keys vals); [tauto|exact He|exact Hi]. }
+  assert (mem (nibs k) root e) as Hmem by (split; [exact He|reflexivity]).
+  pose proof (searchid_spec o keys vals T r lidx B k (or_introl (ex_intro _ e Hmem))) as Hsp.
+  pose proof (searchid_leaves o keys vals T r lidx B k) as Hlv.
+  rewrite (search_values o keys vals T r lidx B k).
+  destruct (searchid T k) as [[l eq] rr]. destruct Hlv as (Hl1 & Hl2 & Hl3). cbn [fst snd] in *.
+  destruct Hsp as (Bl & Ar & HB & HA & HL & HR & Heq). cbn [fst snd] in HL, HR, Heq.
+  destruct eq as [c|].
+  - destruct Heq as (x & HKx & Hc & _ & Hx & _). rewrite <- (Hx e Hmem) in *.
+    assert (kept root = Bl ++ x :: Ar) as HKx' by exact HKx. rewrite HK in HKx'.
+    destruct (NoDup_split_unique x P' S' Bl Ar) as [-> ->]; [rewrite <- HK; apply kept_NoDup; assumption|exact HKx'|].
+    rewrite (node_val_oidx T vals l (fun n H => proj2 (Hl1 n H))), (node_val_oidx T vals rr (fun n H => proj2 (Hl3 n H))).
+    rewrite HL, HR. rewrite <- HP, <- HS, last_opt_map, hd_opt_map. rewrite !option_map_comp_stored.
+    cbn [option_map]. unfold node_val. rewrite Hc, Hi. reflexivity.
+  - exfalso. assert (kept root = Bl ++ Ar) as Heq' by exact Heq. assert (In e (Bl ++ Ar)) as Hin by (rewrite <- Heq'; exact He').
+    apply in_app_or in Hin. destruct Hin as [Hin|Hin].
+    + rewrite Forall_forall in HB. specialize (HB e Hin). unfold lt_q in HB. cbn [e e_nibs root_ent] in HB. rewrite lex_cmp_refl in HB. discriminate.
+    + rewrite Forall_forall in HA. specialize (HA e Hin). unfold gt_q in HA. cbn [e e_nibs root_ent] in HA. rewrite lex_cmp_refl in HA. discriminate.
+Qed.
+
+(* ---------- C03: complete mode is an exact ordered map ---------- *)
+Theorem complete_exact o keys vals T q :
+  build o keys vals = Ok T -> keys <> [] -> o_inner o = true -> o_leaf o = true ->
+  let root := root_subset o keys vals in
+  let sv := fun x => stored T vals (e_idx x) in
+  exists Bl Ar,
+    Forall (fun x => key_lt (e_key x) q) Bl /\ Forall (fun x => key_lt q (e_key x)) Ar /\
+    ((kept root = Bl ++ Ar /\ getid T q = None /\ get T q = Ok NotFound /\
+      search T q = Ok (option_map sv (last_opt Bl), None, option_map sv (hd_opt Ar)) /\
+      rangeget T q = Ok (match last_opt Bl with Some x => Found (sv x) | None => NotFound end))
+     \/
+     (exists x, kept root = Bl ++ x :: Ar /\ e_key x = q /\ (exists id, getid T q = Some id) /\
+                get T q = Ok (Found (sv x)) /\
+                search T q = Ok (option_map sv (last_opt Bl), Some (sv x), option_map sv (hd_opt Ar)) /\
+                rangeget T q = Ok (Found (sv x)))).
+Proof.
+  intros Hb Hne Hinner Hleaf root sv. subst root.
+  destruct (build_ok _ _ _ _ Hb) as [[-> _]|(r & lidx & B)]; [congruence|].
+  pose proof (root_inv o keys vals (bt_sorted _ _ _ _ _ _ B) Hne) as I.
+  pose proof (searchid_spec o keys vals T r lidx B q (or_intror Hinner)) as Hsp.
+  pose proof (searchid_leaves o keys vals T r lidx B q) as Hlv.
+  pose proof (searchid_eq_getid o keys vals T r lidx q B) as Hge.
+  pose proof (search_values o keys vals T r lidx B q) as Hsv.
+  pose proof (rangeget_values o keys vals T r lidx B q) as Hrv.
+  destruct (searchid T q) as [[l eq] rr]. destruct Hlv as (Hl1 & Hl2 & Hl3). cbn [fst snd] in *.
+  destruct Hsp as (Bl & Ar & HB & HA & HL & HR & Heq). cbn [fst snd] in HL, HR, Heq.
+  assert (forall x, In x (kept (root_subset o keys vals)) -> ent_ok x) as Hok.
+  { intros x Hx. apply filter_In in Hx. pose proof (si_ok _ I) as H. rewrite Forall_forall in H. apply H. tauto. }
+  rewrite (node_val_oidx T vals l (fun n H => proj2 (Hl1 n H))), (node_val_oidx T vals rr (fun n H => proj2 (Hl3 n H))) in Hsv.
+  rewrite HL, HR, !option_map_comp_stored in Hsv.
+  exists Bl, Ar.
+  assert (forall x, In x (kept (root_subset o keys vals)) -> lt_q (nibs q) x -> key_lt (e_key x) q) as Hlt
+    by (intros x Hx H; unfold lt_q in H; rewrite (Hok x Hx) in H; exact H).
+  assert (forall x, In x (kept (root_subset o keys vals)) -> gt_q (nibs q) x -> key_lt q (e_key x)) as Hgt
+    by (intros x Hx H; unfold gt_q in H; rewrite (Hok x Hx) in H; exact H).
+  destruct eq as [c|].
+  - destruct Heq as (x & HK & Hc & Hkeep & _ & Hnib). specialize (Hnib Hleaf).
+    assert (In x (kept (root_subset o keys vals))) as Hx by (rewrite HK; apply in_or_app; right; left; reflexivity).
+    split; [rewrite Forall_forall in *; intros y Hy; apply Hlt; [rewrite HK; apply in_or_app; left; exact Hy|apply HB; exact Hy]|].
+    split; [rewrite Forall_forall in *; intros y Hy; apply Hgt; [rewrite HK; apply in_or_app; right; right; exact Hy|apply HA; exact Hy]|].
+    right. exists x. split; [exact HK|].
+    split; [apply nibs_inj; rewrite <- (Hok x Hx); exact Hnib|].
+    assert (node_val T vals c = sv x) as Hnv by (unfold node_val, sv; rewrite Hc; reflexivity).
+    destruct (Hl2 c eq_refl) as [Hsub Hcl].
+    split; [unfold getid; rewrite <- Hge; cbn; eauto|].
+    split; [unfold get; rewrite <- Hge; unfold bind; rewrite (leaf_value_stored o keys vals T r lidx B c Hsub Hcl), Hnv; reflexivity|].
+    split; [rewrite Hsv; cbn [option_map]; rewrite Hnv; reflexivity|].
+    rewrite Hrv, Hnv. reflexivity.
+  - split; [rewrite Forall_forall in *; intros y Hy; apply Hlt; [rewrite Heq; apply in_or_app; left; exact Hy|apply HB; exact Hy]|].
+    split; [rewrite Forall_forall in *; intros y Hy; apply Hgt; [rewrite Heq; apply in_or_app; right; exact Hy|apply HA; exact Hy]|].
+    left. split; [exact Heq|].
+    split; [unfold getid; rewrite <- Hge; reflexivity|].
+    split; [unfold get; rewrite <- Hge; reflexivity|].
+    split; [rewrite Hsv; reflexivity|].
+    rewrite Hrv. destruct l as [n|].
+    + destruct (Hl1 n eq_refl) as [_ Hnl]. destruct n as [id ord tail eidx|]; [|discriminate].
+      cbn [oidx leaf_eidx] in HL. destruct (last_opt Bl) as [x|]; [|discriminate]. cbn in HL. inversion HL.
+      unfold node_val, sv. cbn [leaf_eidx]. reflexivity.
+    + cbn [oidx] in HL. destruct (last_opt Bl); [discriminate|reflexivity].
+Qed.
+
+(* ---------- C02: RangeGet on every indexed key ---------- *)
+Lemma run_value o keys vs : length vs = length keys ->
+  forall i, i < length keys ->
+  exists j, j <= i /\ retained o keys (Some vs) j = true /\
+            (forall m, j < m -> m <= i -> retained o keys (Some vs) m = false) /\
+            nth j vs [] = nth i vs [].
+Proof.
+  intros Hl. induction i as [|i IH]; intros Hi.
+  - exists 0. split; [lia|]. split; [|split; [intros; lia|reflexivity]].
+    pose proof (retained_spec o keys (Some vs) 0 Hi Hl) as H. apply H. auto.
+  - destruct (retained o keys (Some vs) (S i)) eqn:Er.
+    + exists (S i). split; [lia|]. split; [exact Er|]. split; [intros; lia|reflexivity].
+    + destruct (IH ltac:(lia)) as (j & Hj & Hr & Hrun & Hv).
+      exists j. split; [lia|]. split; [exact Hr|]. split.
+      * intros m H1 H2. destruct (Nat.eq_dec m (S i)) as [->|]; [exact Er|apply Hrun; lia].
+      * rewrite Hv. pose proof (retained_spec o keys (Some vs) (S i) Hi Hl) as H.
+        destruct (list_eq_dec Byte.byte_eq_dec (nth i vs []) (nth (S i) vs [])) as [E|E]; [exact E|].
+        exfalso. assert (retained o keys (Some vs) (S i) = true) as Ht.
+        { apply H. right; right. replace (S i - 1) with i by lia. exact E. }
+        congruence.
+Qed.
+
+Lemma last_of_sorted_max {A} (R : A -> A -> Prop) l x :
+  StronglySorted R l -> In x l -> (forall y, In y l -> y = x \/ R y x) -> (forall y, ~ R y y) ->
+  (forall a b, R a b -> R b a -> False) -> last_opt l = Some x.
+Proof.
+  intros Hs Hin Hmax Hirr Hasym. induction Hs as [|a l Hs IH Hf]; [destruct Hin|].
+  rewrite Forall_forall in Hf. destruct l as [|b l'].
+  - destruct Hin as [<-|[]]. reflexivity.
+  - change (last_opt (a :: b :: l')) with (last_opt (b :: l')). apply IH.
+    + destruct Hin as [<-|Hin]; [|exact Hin]. exfalso.
+      destruct (Hmax b (or_intror (or_introl eq_refl))) as [E|E].
+      * subst b. eapply Hirr. apply Hf. left; reflexivity.
+      * eapply Hasym; [exact E|apply Hf; left; reflexivity].
+    + intros y Hy. apply Hmax. right. exact Hy.
+Qed.
+
+Theorem rangeget_indexed o keys vals T i k :
+  build o keys vals = Ok T ->
+  nth_error keys i = Some k ->
+  match vals with Some vs => length vs = length keys | None => True end ->
+  exists v, rangeget T k = Ok (Found v) /\ val_bytes v = supplied vals i /\ (vals = None -> v = None).
+Proof.
+  intros Hb Hk Hwf.
+  destruct (retained o keys vals i) eqn:Er.
+  { (* retained: Get finds it and RangeGet follows Get *)
+    destruct (kept_key_found o keys vals T i k Hb Hk Er) as (_ & v & Hg & Hv & Hn).
+    destruct (lookups_total_consistent o keys vals T k Hb) as (_ & _ & _ & _ & _ & _ & Hrg & _).
+    exists v. split; [apply Hrg; exact Hg|auto]. }
+  (* de-duplicated away: the value equals that of the last retained key before it *)
+  assert (i < length keys) as Hi by (apply nth_error_Some; rewrite Hk; discriminate).
+  destruct vals as [vs|]; [|pose proof (retained_spec o keys None i Hi) as H; cbv beta iota in H; rewrite H in Er; discriminate].
+  destruct (build_ok _ _ _ _ Hb) as [[-> _]|(r & lidx & B)]; [destruct i; discriminate|].
+  pose proof (bt_sorted _ _ _ _ _ _ B) as Hs. pose proof (bt_nonempty _ _ _ _ _ _ B) as Hne.
+  pose proof (root_inv o keys (Some vs) Hs Hne) as I.
+  set (e := root_ent o keys (Some vs) i k).
+  assert (In e (s_ents (root_subset o keys (Some vs)))) as He by (eapply nth_error_In; apply root_ent_nth; exact Hk).
+  assert (mem (nibs k) (root_subset o keys (Some vs)) e) as Hmem by (split; [exact He|reflexivity]).
+  pose proof (searchid_spec o keys (Some vs) T r lidx B k (or_introl (ex_intro _ e Hmem))) as Hsp.
+  pose proof (searchid_leaves o keys (Some vs) T r lidx B k) as Hlv.
+  rewrite (rangeget_values o keys (Some vs) T r lidx B k).
+  destruct (searchid T k) as [[l eq] rr]. destruct Hlv as (Hl1 & _ & _). cbn [fst snd] in *.
+  destruct Hsp as (Bl & Ar & HB & HA & HL & _ & Heq). cbn [fst snd] in HL, Heq.
+  destruct eq as [c|].
+  { exfalso. destruct Heq as (x & _ & _ & Hkeep & Hx & _). rewrite (Hx e Hmem) in Hkeep. cbn [e e_keep root_ent] in Hkeep. congruence. }
+  destruct (run_value o keys vs Hwf i Hi) as (j & Hji & Hrj & Hrun & Hvj).
+  assert (j < i) as Hlt by (destruct (Nat.eq_dec j i) as [->|]; [congruence|lia]).
+  destruct (nth_error keys j) as [kj|] eqn:Ekj; [|apply nth_error_None in Ekj; lia].
+  set (ej := root_ent o keys (Some vs) j kj).
+  assert (In ej (s_ents (root_subset o keys (Some vs)))) as Hej by (eapply nth_error_In; apply root_ent_nth; exact Ekj).
+  assert (In ej (kept (root_subset o keys (Some vs)))) as Hejk by (apply filter_In; split; [exact Hej|exact Hrj]).
+  (* ej lies on the left of the split, and it is the last element there *)
+  assert (forall y, In y (kept (root_subset o keys (Some vs))) -> In y (s_ents (root_subset o keys (Some vs))) /\ e_keep y = true) as Hkin
+    by (intros y Hy; apply filter_In in Hy; exact Hy).
+  assert (forall y, In y Bl -> e_idx y < i) as HBl.
+  { intros y Hy. assert (In y (kept (root_subset o keys (Some vs)))) as Hyk by (rewrite Heq; apply in_or_app; left; exact Hy).
+    rewrite Forall_forall in HB. specialize (HB y Hy). unfold lt_q in HB.
+    apply (proj1 (root_idx_lt o keys (Some vs) Hs Hne y e (proj1 (Hkin y Hyk)) He)). exact HB. }
+  assert (forall y, In y Ar -> i < e_idx y) as HAr.
+  { intros y Hy. assert (In y (kept (root_subset o keys (Some vs)))) as Hyk by (rewrite Heq; apply in_or_app; right; exact Hy).
+    rewrite Forall_forall in HA. specialize (HA y Hy). unfold gt_q in HA.
+    apply (proj1 (root_idx_lt o keys (Some vs) Hs Hne e y He (proj1 (Hkin y Hyk)))). exact HA. }
+  assert (In ej Bl) as HejB.
+  { rewrite Heq in Hejk. apply in_app_or in Hejk. destruct Hejk as [H|H]; [exact H|]. specialize (HAr ej H). cbn in HAr. lia. }
+  assert (last_opt Bl = Some ej) as Hlast.
+  { apply (last_of_sorted_max (fun a b => e_idx a < e_idx b)).
+    - (* Bl is a prefix of the kept list, which is sorted by index *)
+      pose proof (mk_ents_idx_sorted keys 0 (to_keep o (length keys) (Some vs))) as S2.
+      apply (SS_filter _ e_keep) in S2. change (filter e_keep (mk_ents 0 keys (to_keep o (length keys) (Some vs)))) with (kept (root_subset o keys (Some vs))) in S2.
+      rewrite Heq in S2. apply SS_app_inv in S2. tauto.
+    - exact HejB.
+    - intros y Hy. destruct (Nat.eq_dec (e_idx y) j) as [E|E].
+      + left. assert (In y (kept (root_subset o keys (Some vs)))) as Hyk by (rewrite Heq; apply in_or_app; left; exact Hy).
+        apply (root_idx_inj o keys (Some vs)); [apply Hkin; exact Hyk|exact Hej|exact E].
+      + right. cbn [ej e_idx root_ent]. assert (e_idx y < i) by (apply HBl; exact Hy).
+        assert (In y (kept (root_subset o keys (Some vs)))) as Hyk by (rewrite Heq; apply in_or_app; left; exact Hy).
+        destruct (Nat.lt_ge_cases j (e_idx y)) as [Hgt|]; [|lia].
+        exfalso. destruct (root_ent_in o keys (Some vs) y (proj1 (Hkin y Hyk))) as (iy & ky & Hky & Ey).
+        assert (e_keep y = retained o keys (Some vs) (e_idx y)) as Hky2 by (rewrite Ey; reflexivity).
+        rewrite (proj2 (Hkin y Hyk)) in Hky2. rewrite (Hrun (e_idx y) Hgt ltac:(lia)) in Hky2. discriminate.
+    - intros y. lia.
+    - intros a b. lia. }
+  rewrite Hlast in HL. destruct l as [n|]; [|discriminate].
+  destruct (Hl1 n eq_refl) as [_ Hnl]. destruct n as [id ord tail eidx|]; [|discriminate].
+  cbn [oidx leaf_eidx option_map ej e_idx root_ent] in HL. inversion HL; subst eidx.
+  unfold node_val. cbn [leaf_eidx].
+  assert (exists ord', nth_error lidx ord' = Some j) as Hord.
+  { destruct (Hl1 _ eq_refl) as [Hsub _]. exists ord. apply leaf_subtree_leaves in Hsub.
+    exact (leaf_ok_root_nth lidx r ord j (bt_leaf _ _ _ _ _ _ B) Hsub). }
+  destruct (stored_bytes T (Some vs) j o keys r lidx B Hord) as [Hsb _].
+  exists (stored T (Some vs) j). split; [reflexivity|]. split; [|discriminate].
+  rewrite Hsb. cbn [supplied]. exact Hvj.
+Qed.
